@@ -1041,7 +1041,10 @@ class Processor:
         elif isinstance(data, (set, CommentedSet)):
             for ele in data:
                 ele_val = ele.value if isinstance(ele, TaggedScalar) else ele
-                if ele_val == stripped_attrs:
+                if ele_val == stripped_attrs or (
+                    not isinstance(ele_val, str)
+                    and str(ele_val) == str_stripped
+                ):
                     self.logger.debug((
                         "Processor::_get_nodes_by_key:  FOUND set node by"
                         " name at {}."
